@@ -55,8 +55,9 @@ def is_catch_all(h):
 
 
 class CFG(object):
-    def __init__(self, fn, may_raise_fn=may_raise):
+    def __init__(self, fn, may_raise_fn=may_raise, nonempty_iter=None):
         self.fn = fn
+        self._nonempty = nonempty_iter or (lambda e: False)
         self.ast = {ENTRY: None, EXIT: None, RAISE: None}
         self.kind = {ENTRY: "entry", EXIT: "exit", RAISE: "raise"}
         self.succ = {ENTRY: set(), EXIT: set(), RAISE: set()}
@@ -123,6 +124,18 @@ class CFG(object):
             if self._may_raise(head) or not isinstance(s, ast.While):
                 self._exc(n, ctx)
             brk = []
+            if not isinstance(s, ast.While) and self._nonempty(s.iter):
+                # provably non-empty iterable: the first entry always runs the body;
+                # only the re-entry node may leave the loop
+                again = self._new(None, "loop-again")
+                self.ast[again] = s
+                lctx = ctx.loop(again, brk)
+                b = self._block(s.body, [n, again], lctx)
+                self._link(b, again)
+                out = [again]
+                if s.orelse:
+                    out = self._block(s.orelse, out, ctx)
+                return out + brk
             lctx = ctx.loop(n, brk)
             b = self._block(s.body, [n], lctx)
             self._link(b, n)
